@@ -21,10 +21,11 @@ from .. import core, tlc
 from ..core import MachineryError, Report
 
 CONFIGS = {
+    "replay": ["Retarget_tiny.cfg"],
     "quick": ["Retarget_q1.cfg", "Retarget_q2.cfg", "Retarget_q3.cfg"],
-    "thorough": ["Retarget_t1.cfg", "Retarget_t2.cfg", "Retarget_t3.cfg", "Retarget_q1.cfg"],
+    "thorough": ["Retarget_t1.cfg", "Retarget_t2.cfg", "Retarget_t3.cfg", "Retarget_t4.cfg", "Retarget_t5.cfg"],
 }
-SAMPLE = {"quick": 4000, "thorough": 60000}
+SAMPLE = {"quick": 3000, "thorough": 40000}
 
 
 def load_known(prop: str) -> Dict[str, dict]:
@@ -69,7 +70,7 @@ def generate_all(spec: str, cfgs: List[str], wd: str, tier: str, rep: Report) ->
     def one(cfg: str):
         dest = os.path.join(wd, cfg + ".cases")
         res = tlc.generate(spec, cfg, "CASE", dest, workers=per, timeout=timeout,
-                           heap="6g" if tier == "thorough" else "3g")
+                           heap="4g" if tier == "thorough" else "3g")
         if res["timed_out"] or res["distinct"] == 0:
             raise MachineryError(f"{spec}/{cfg}: timed_out={res['timed_out']} distinct={res['distinct']}")
         return cfg, dest, res
@@ -100,7 +101,7 @@ def run_tables(prop: str, tier: str, replay: Optional[str], *, spec: str, trace_
             with open(cases, "w") as out:
                 out.write(json.dumps(c) + "\n")
             # model checking still backs the verdict: smallest config
-            generate_all(spec, configs["quick"][:1], wd, "quick", rep)
+            generate_all(spec, configs.get("replay", configs["quick"][:1]), wd, "quick", rep)
         else:
             cfgs = configs[tier]
             if os.environ.get("VERIF_TABLES_CONFIGS"):  # development knob
